@@ -36,8 +36,9 @@ type scriptHub struct {
 	hub      *ckit.EngineHub
 	mu       sync.Mutex
 	scripts  map[int]ctScript
-	onStart  func(id string) // called after a successful start (the record exists by then)
-	onCreate func(id string) // called after a successful create
+	onStart  func(id string)   // called after a successful start (the record exists by then)
+	onCreate func(id string)   // called after a successful create
+	onCall   func(kind string) // called at the beginning of logs / wait (caller-cancellation hook)
 	stdin    bool
 }
 
@@ -121,6 +122,9 @@ func (e *scriptEngine) output(id string) io.ReadCloser {
 }
 
 func (e *scriptEngine) VirtualizationLogs(ctx context.Context, opts *enginetypes.VirtualizationLogStreamOptions) (io.ReadCloser, io.ReadCloser, error) {
+	if e.sh.onCall != nil {
+		e.sh.onCall("logs")
+	}
 	_, se, err := e.FakeEngine.VirtualizationLogs(ctx, opts)
 	if err != nil {
 		return nil, nil, err
@@ -143,6 +147,9 @@ func (e *scriptEngine) VirtualizationAttach(ctx context.Context, id string, a, b
 }
 
 func (e *scriptEngine) VirtualizationWait(ctx context.Context, id, state string) (*enginetypes.VirtualizationWaitResult, error) {
+	if e.sh.onCall != nil {
+		e.sh.onCall("wait")
+	}
 	sc := e.sh.scriptOf(id)
 	r, err := e.FakeEngine.VirtualizationWait(ctx, id, state)
 	if err != nil {
